@@ -194,6 +194,24 @@ type TPtrStructList struct {
 	}
 }
 
+type tDictSub struct {
+	Tags []string `parquet:",dict"`
+}
+type TDictNested struct {
+	Sub *tDictSub
+	OL  []string  `parquet:",list,optional,dict"`
+	LP  []*string `parquet:",list,dict" parquet-element:",optional"`
+	K   string    `parquet:",dict"`
+}
+type tOptInner struct {
+	X int32
+	Y string
+}
+type TOptStruct struct {
+	A  tOptInner `parquet:",optional"`
+	ID int64
+}
+
 // RT is one row type with thunks instantiating the generic entry points.
 type RT struct {
 	Name string
@@ -338,7 +356,7 @@ var rowTypes = []*RT{
 	mkRT[TNested]("Nested"), mkRT[TSliceOfStruct]("SliceOfStruct"), mkRT[TListOfStruct]("ListOfStruct"),
 mkRT[TListOfList]("ListOfList"), mkRT[TMap]("Map"), mkRT[TMapOfStruct]("MapOfStruct"),
 	mkRT[TMapOfSlice]("MapOfSlice"), mkRT[TEmbedded]("Embedded"), mkRT[TDeep]("Deep"), mkRT[TBoolRuns]("BoolRuns"),
-	mkRT[TStrings]("Strings"), mkRT[TFloatsOnly]("FloatsOnly"), mkRT[TPtrStructList]("PtrStructList"),
+	mkRT[TStrings]("Strings"), mkRT[TFloatsOnly]("FloatsOnly"), mkRT[TPtrStructList]("PtrStructList"), mkRT[TDictNested]("DictNested"), mkRT[TOptStruct]("OptStruct"),
 }
 
 // ---------------------------------------------------------------------------
@@ -674,4 +692,40 @@ func maskDigits(s string) string {
 		b.WriteRune(c)
 	}
 	return b.String()
+}
+
+// varyRow returns a copy of row whose top-level scalar fields hold values
+// derived from i by a fixed xorshift sequence (poorly compressible, all
+// distinct): used to build large pages deterministically.
+func varyRow(row any, i int) any {
+	v := reflect.New(reflect.TypeOf(row)).Elem()
+	v.Set(reflect.ValueOf(row))
+	h := uint64(i+1) * 0x9E3779B97F4A7C15
+	next := func() uint64 {
+		h ^= h << 13
+		h ^= h >> 7
+		h ^= h << 17
+		return h
+	}
+	for f := 0; f < v.NumField(); f++ {
+		fv := v.Field(f)
+		if !fv.CanSet() {
+			continue
+		}
+		switch fv.Kind() {
+		case reflect.Int8, reflect.Int16, reflect.Int32, reflect.Int64, reflect.Int:
+			fv.SetInt(int64(next()) >> (64 - fv.Type().Bits()))
+		case reflect.Uint8, reflect.Uint16, reflect.Uint32, reflect.Uint64, reflect.Uint:
+			fv.SetUint(next() >> (64 - fv.Type().Bits()))
+		case reflect.Float64:
+			fv.SetFloat(float64(int64(next())>>11) / 1024)
+		case reflect.Float32:
+			fv.SetFloat(float64(float32(int32(next()) >> 8)))
+		case reflect.String:
+			fv.SetString(fmt.Sprintf("%x", next()))
+		case reflect.Bool:
+			fv.SetBool(next()&1 == 1)
+		}
+	}
+	return v.Interface()
 }
